@@ -53,7 +53,7 @@ RULE = ('complete sweep of %d matrix plans: (every supported and 7 '
         'values. Non-trivial: the request used an operation / attribute / '
         'version on the other side of a gate. Distinct = plan number.'
         % len(PLANS))
-PROBES = ['named_attribute_requests', 'gated_operation_refused', 'unsupported_version_refused',
+PROBES = ['whole_request_rejections', 'named_attribute_requests', 'gated_operation_refused', 'unsupported_version_refused',
           'discover_sublist', 'query_then_execute', 'tag_scan_frames',
           'gated_attribute_refused', 'response_version_echo',
           'aead_encrypt_answered']
@@ -146,7 +146,8 @@ def execute(plan):
     probes = dict((p, 0) for p in PROBES)
     viol = []
     ver = tuple(plan['ver'])
-    W = world.World([{'cn': 'owner'}], None, seed=plan['seed'])
+    W = world.World([{'cn': 'owner'}, {'cn': 'x', 'cns': ['a', 'b']}], None,
+                    seed=plan['seed'])
     nontrivial = False
     results = []
 
@@ -344,6 +345,33 @@ def execute(plan):
                         if W.dump() != before:
                             flag('gated-attribute-had-effect', why=n,
                                  version=ver, how=op['op'])
+            # ... and requests the server refuses as a whole (before or
+            # instead of executing any item) are answered in their version
+            # too
+            if ver in SUPPORTED:
+                q = {'op': 'Query', 'funcs': [1]}
+                rejections = [
+                    ('async', {'actor': 0, 'items': [q], 'async': True}),
+                    ('stale', {'actor': 0, 'items': [q], 'ts': -500}),
+                    ('future', {'actor': 0, 'items': [q], 'ts': 500}),
+                    ('undo', {'actor': 0, 'items': [q], 'cont': 3}),
+                    ('missing-id', {'actor': 0, 'items': [q, dict(q)],
+                                    'ids': ['01', None]}),
+                    ('two-common-names', {'actor': 1, 'items': [q]}),
+                    ('too-large', {'actor': 0, 'items': [q], 'maxresp': 40}),
+                ]
+                for why, rq in rejections:
+                    rq['ver'] = list(ver)
+                    resp = W.request(rq)
+                    probes['whole_request_rejections'] += 1
+                    if resp is None or not resp.items:
+                        continue
+                    if resp.items[0]['status'] == 0:
+                        continue
+                    if tuple(resp.version) != ver:
+                        flag('rejection-answered-in-another-version',
+                             why=why, version=ver,
+                             answered=list(resp.version))
         elif plan['kind'] == 'discover':
             if ver < (1, 1):
                 resp, before = send({'op': 'DiscoverVersions',
